@@ -655,7 +655,7 @@ func c05CfgHistory(c *mon.Ctx, k int) {
 			d := c05CfgDocs[di]
 			reg := shared
 			if fresh {
-				reg, _ = lint.GlobalRegistry().Filter(lint.FilterOptions{ExcludeNames: []string{"e_ca_is_ca"}})
+				reg, _ = lint.GlobalRegistry().Filter(lint.FilterOptions{ExcludeNames: []string{someCertLint()}})
 			}
 			reg.SetConfiguration(mustConfig(d.Text))
 			for oi, o0 := range c05CfgObjs {
@@ -672,7 +672,7 @@ func c05CfgHistory(c *mon.Ctx, k int) {
 				}
 				s := mon.SnapOf(rs)
 				if fresh { // the two registries select different lints; compare what both ran
-					delete(s, "e_ca_is_ca")
+					delete(s, someCertLint())
 				}
 				key := o0.Name + "|" + d.Label
 				c05CfgMu.Lock()
@@ -687,13 +687,13 @@ func c05CfgHistory(c *mon.Ctx, k int) {
 				}
 				ref := mon.Snap{}
 				for n, v := range first {
-					if n != "e_ca_is_ca" {
+					if n != someCertLint() {
 						ref[n] = v
 					}
 				}
 				cmp := mon.Snap{}
 				for n, v := range s {
-					if n != "e_ca_is_ca" {
+					if n != someCertLint() {
 						cmp[n] = v
 					}
 				}
